@@ -13,6 +13,7 @@ from __future__ import annotations
 import json
 import os
 import shutil
+import signal
 import sys
 import tempfile
 import time
@@ -91,9 +92,38 @@ def run_check(prop: str, tier: str, t0: float) -> int:
 
     # ---- 2. correspondence + monitors
     results: list[CompResult] = []
+    limit = int(os.environ.get("VERIF_COMPONENT_TIMEOUT", "900" if tier == "quick" else "14400"))
+
+    class Hang(Exception):
+        pass
+
+    def on_alarm(signum: int, frame: object) -> None:
+        raise Hang()
+
+    signal.signal(signal.SIGALRM, on_alarm)
     if ok:
         for comp in spec["components"]:
-            results.append(comp(tier, seed, prop))
+            try:
+                signal.alarm(limit)
+                try:
+                    results.append(comp(tier, seed, prop))
+                finally:
+                    signal.alarm(0)
+            except Hang:
+                # the code under test (driven in-process by most components) does not return: an endless loop in a scheduler call, say
+                broken.append({"kind": "component-hung", "component": getattr(comp, "__qualname__", str(comp)).split(".")[0],
+                               "detail": f"no result within {limit} s: a call into the code under test does not return (normal duration: seconds to a few minutes)"})
+            except Exception as e:  # noqa: BLE001
+                # an exception that comes out of the code under test while a component is being set up or driven (a NameError in a
+                # helper every scheduler calls, say) is not a defect of the harness: the component's correspondence no longer checks
+                tb = traceback.extract_tb(e.__traceback__)
+                inside = [f for f in tb if str(common.SRC) in f.filename]
+                if not inside:
+                    raise
+                f = inside[-1]
+                broken.append({"kind": "component-crashed", "component": getattr(comp, "__qualname__", str(comp)).split(".")[0],
+                               "detail": f"{type(e).__name__}: {e} raised in {Path(f.filename).name}:{f.lineno} ({f.name}) of the code under test",
+                               "traceback": "".join(traceback.format_exception(type(e), e, e.__traceback__))[-2500:]})
     for r in results:
         for d in r.disagreements:
             broken.append({"kind": "correspondence", "component": d.component, "ops": d.ops, "model": d.model,
@@ -106,9 +136,21 @@ def run_check(prop: str, tier: str, t0: float) -> int:
 
     # ---- 3. failing-input search when something no longer checks (a listed finding is not the failing input looked for)
     if broken and ok and all((v.prop, v.signature) in listed for v in violations):
-        for r in registry.search(prop, tier, seed, broken):
-            results.append(r)
-            violations += [v for v in r.violations if v.prop == prop]
+        try:
+            signal.alarm(limit)
+            try:
+                for r in registry.search(prop, tier, seed, broken):
+                    results.append(r)
+                    violations += [v for v in r.violations if v.prop == prop]
+            finally:
+                signal.alarm(0)
+        except Hang:
+            broken.append({"kind": "search-hung", "detail": f"the failing-input search did not return within {limit} s"})
+        except Exception as e:  # noqa: BLE001
+            if not [f for f in traceback.extract_tb(e.__traceback__) if str(common.SRC) in f.filename]:
+                raise
+            broken.append({"kind": "search-crashed", "detail": f"{type(e).__name__}: {e} raised in the code under test during the failing-input search",
+                           "traceback": "".join(traceback.format_exception(type(e), e, e.__traceback__))[-2500:]})
 
     # ---- 4. verdict
     known, fresh = [], []
